@@ -84,6 +84,14 @@ CfgOK(c) ==
     /\ \A t \in {"timer", "eval", "plot", "logger"} :
           Cardinality({i \in 1..Len(c.cbs) : c.cbs[i].t = t}) <= 1
     /\ \A i \in 1..Len(c.cbs) : c.cbs[i].t \in {"eval", "plot", "logger"} => c.cbs[i].p >= 1
+    /\ \A i \in 1..Len(c.cbs) :
+          LET d == c.cbs[i] IN
+          CASE d.t = "rec"    -> TRUE
+            [] d.t = "timer"  -> d.x = "U"
+            [] d.t = "eval"   -> d.x \in {"metric", "obs"}
+            [] d.t = "plot"   -> d.n >= 0
+            [] d.t = "logger" -> d.x \in {"default", "custom", "junk"} /\ d.n \in 0..2
+            [] OTHER          -> FALSE
     /\ (Pos(c, "plot") > 0 => Pos(c, "eval") > 0)
     /\ c.runs \in 1..2 /\ c.again \in {"reset", "keep"}
     /\ c.progbar \in {"off", "on", "nb"}
